@@ -61,6 +61,8 @@ pub struct ExploreOpts {
     /// list/table shape (iterators and Drop cannot observe ids, sizes or the
     /// limit); false = in every state
     pub owning_by_shape: bool,
+    /// never merge two roots (their states may differ in ways the canonical key cannot see)
+    pub distinct_roots: bool,
 }
 
 pub struct VRecLite {
@@ -352,12 +354,20 @@ impl<'a> Explorer<'a> {
                 }
                 Ok(s) => {
                     let k: Arc<[u8]> = s.key.into();
-                    if !self.seen.contains_key(&k) {
+                    let k_seen: Arc<[u8]> = if opts.distinct_roots {
+                        let mut v = k.to_vec();
+                        v.extend_from_slice(b"#root");
+                        v.extend_from_slice(&(ri as u64).to_le_bytes());
+                        v.into()
+                    } else {
+                        k.clone()
+                    };
+                    if !self.seen.contains_key(&k_seen) {
                         let id = self.states.len() as u32;
                         let rep = self.shapes.insert(crate::state::shape_of(&k));
                         self.states.push(StateRec { parent: u32::MAX, op: 0, root: ri as u32, depth: 0, shape_rep: rep });
                         self.keys.push(k.clone());
-                        self.seen.insert(k, id);
+                        self.seen.insert(k_seen, id);
                         frontier.push(id);
                     }
                 }
